@@ -438,9 +438,26 @@ def gen_plan(seed, cfg):
         plan['n_setup'] = len(ops)
         nq = r.randint(20, 80) if r.random() < 0.3 else r.randint(6, 30)
         jump_at = r.randrange(nq) if (swarm['today'] and r.random() < 0.6) else None
+        # override epochs (own stream): on some runs further cells - never one that is overridden already, so "last
+        # write wins" (C04) is not involved - are overridden between two query bursts; within every epoch the overrides
+        # are fixed, and what was queried in earlier epochs is part of "whatever was queried before"
+        re_ = core.rng(seed, 'execsim', 'c08', 'epochs')
+        epoch_at = sorted(re_.sample(range(1, nq), min(nq - 1, re_.choice([0, 0, 1, 1, 2])))) if nq > 2 else []
+        taken = {ex: set(tuple(c['tg']) for op in ops if op['ex'] == ex for c in op['cells']) for ex in range(swarm['n_ex'])}
         for i in range(nq):
             if jump_at is not None and i == jump_at:
                 ops.append({'op': 'clock', 'add_s': r.choice([86400, 86400 * 31, 3600 * 30, 86400 * 366])})
+            if i in epoch_at:
+                ex = re_.randrange(swarm['n_ex'])
+                cells = []
+                for _ in range(re_.randint(1, 3)):
+                    tg = _target(re_, spec, dims, meta, swarm['beyond'] or re_.random() < 0.4, [], prec)
+                    if tuple(tg) in taken[ex]:
+                        continue
+                    taken[ex].add(tuple(tg))
+                    cells.append({'at': wbgen.spell(re_, tg[0], titles[tg[0]], tg[1], tg[2]), 'tg': tg, 'v': _value(re_)})
+                if cells:
+                    ops.append({'op': 'set', 'ex': ex, 'client': 0, 'cells': cells})
             ops.append(gen_query(r.randrange(swarm['n_ex']), r.randrange(swarm['n_clients'])))
         if swarm['reuse']:
             _mark_reuse(r, ops)
@@ -843,13 +860,11 @@ def _classify_c04(plan, ctx, op, ent, e, O, HIST, dims, what, o, x, okey=None):
 def _check_c08(plan, log, ctx, probe, dims, src, final, sizes0, exs):
     n_ex = plan['swarm']['n_ex']
     n_setup = plan.get('n_setup', 0)
-    O = [dict() for _ in range(n_ex)]
-    for op in plan['ops'][:n_setup]:
-        for c in op['cells']:
-            O[op['ex'] % n_ex][_okey(c['tg'])] = c['v']
+    O = [dict() for _ in range(n_ex)]          # overrides in force, built up as the history proceeds (epochs)
     mism = []
     feats = set()
     seen_cells = {}
+    queried = [False] * n_ex
 
     def iso(e, ns):
         overrides = sorted([[int(x) for x in k.split(':')] + [v] for k, v in O[e].items()], key=lambda o: o[:3])
@@ -869,8 +884,16 @@ def _check_c08(plan, log, ctx, probe, dims, src, final, sizes0, exs):
         if op['op'] in ('set', 'clock'):
             if op['op'] == 'set' and ent['out'] != ['ok']:
                 mism.append({'key': 'set-raised', 'op': ent['i'], 'observed': ent['out'], 'expected': ['ok']})
+            if op['op'] == 'set':
+                e = op['ex'] % n_ex
+                for c in op['cells']:
+                    O[e][_okey(c['tg'])] = c['v']
+                if queried[e]:
+                    probe('new_override_epoch_after_queries')
+                    feats.add('epoch')
             continue
         e = op['ex'] % n_ex
+        queried[e] = True
         ref = iso(e, ent['ns'])
         pairs = []
         out = ent['out']
